@@ -76,7 +76,7 @@ func raceChild(seed uint64, n int) (available bool, note string, races []string,
 	}
 	rep = map[string]any{}
 	if err := json.Unmarshal(bytes.TrimSpace(so.Bytes()), &rep); err != nil {
-		msg := tail(se.String(), 600)
+		msg := tailStr(se.String(), 600)
 		for _, l := range strings.Split(se.String(), "\n") {
 			if strings.HasPrefix(l, "fatal error:") || strings.HasPrefix(l, "panic:") {
 				msg = l + " … " + tail2(se.String()[strings.Index(se.String(), l):], 900)
@@ -88,7 +88,7 @@ func raceChild(seed uint64, n int) (available bool, note string, races []string,
 	return true, "", races, rep
 }
 
-func tail(s string, n int) string {
+func tailStr(s string, n int) string {
 	if len(s) > n {
 		return s[len(s)-n:]
 	}
